@@ -260,6 +260,9 @@ func parse(f format, ms []*am, jk []junk, rc *reqCtx) (*metric.BrokerBatchRows, 
 		}
 		return nil, err
 	}
+	if batch != nil && batch.Len() == 0 {
+		return nil, nil // (influx returns an empty batch; channelManager.Write ignores it)
+	}
 	return batch, nil
 }
 
